@@ -57,7 +57,7 @@ Definition body_of (l : list N) : list N := filter (fun c => negb (len_of c =? 0
 
 Inductive err :=
 | Ok | NoSuchKey | DeleteMarker | NoSuchBucket | PreconditionFailed | NotModified | InvalidRange
-| InvalidWriteOffset | InvalidStorageClass | InvalidSequence.
+| InvalidWriteOffset | InvalidStorageClass | InvalidSequence | MethodNotAllowed.
 
 (* conditions: If-Match / If-None-Match style *)
 Inductive cond := CNone | CStar | CTag (e : etag).
@@ -81,22 +81,86 @@ Definition validate (o : obj) (im inm : cond) : option err :=
   end.
 
 (* ---------- the inner storage ---------- *)
-Record upload := mkUp { u_k : K; u_ct : N; u_meta : N; u_tags : N; u_cls : N; u_parts : list (N * N); u_open : bool }.
-Record inner := mkInner { i_objs : list (K * list ver); i_ups : list upload; i_clock : N }.
-Definition inner0 : inner := mkInner [] [] 0.
+(* Per (bucket,key) the rows of the objects table that are visible through the API: version id
+   (None = "null"), object or delete marker, creation stamp (kept when the null row is overwritten in
+   place; the upload's creation time for multipart objects) and the is_latest flag.  Buckets carry a
+   versioning state.  Version ids are referred to by their creation ordinal. *)
+Inductive vstate := VUnset | VEnabled | VSuspended.
+(* [VRBogus]: an id that no version has (an ordinal not yet handed out when the call was made) *)
+Inductive vref := VRNone | VRNull | VRId (n : N) | VRBogus.
+Record row := mkRow { w_vid : option N; w_ver : ver; w_created : N; w_latest : bool }.
+Record upload := mkUp { u_k : K; u_ct : N; u_meta : N; u_tags : N; u_cls : N; u_parts : list (N * N); u_open : bool; u_created : N }.
+Record inner := mkInner { i_objs : list (K * list row); i_ups : list upload; i_clock : N; i_nextvid : N; i_vers : list (N * vstate) }.
+(* the harness enables versioning on bucket 1 before the history starts *)
+Definition inner0 : inner := mkInner [] [] 0 0 [(1, VEnabled)].
 
-Definition versioned (k : K) : bool := fst k =? 1.
+Definition versioned (k : K) : bool := fst k =? 1.     (* used by Model/Repl.v only *)
 Definition bucket_ok (b : N) : bool := b <? 2.
-Definition stack (s : inner) (k : K) : list ver := match get k (i_objs s) with Some l => l | None => [] end.
-Definition cur (s : inner) (k : K) : option ver := hd_error (stack s k).
+Fixpoint vs_lookup (b : N) (l : list (N * vstate)) : vstate :=
+  match l with [] => VUnset | (b', v) :: l' => if b' =? b then v else vs_lookup b l' end.
+Definition vs_of (s : inner) (b : N) : vstate := vs_lookup b (i_vers s).
+Definition is_enabled (s : inner) (b : N) : bool := match vs_of s b with VEnabled => true | _ => false end.
+Definition is_suspended (s : inner) (b : N) : bool := match vs_of s b with VSuspended => true | _ => false end.
+Definition is_unset (s : inner) (b : N) : bool := match vs_of s b with VUnset => true | _ => false end.
+
+Definition stack (s : inner) (k : K) : list row := match get k (i_objs s) with Some l => l | None => [] end.
+Definition cur_row (s : inner) (k : K) : option row := find w_latest (stack s k).
+Definition cur (s : inner) (k : K) : option ver := option_map w_ver (cur_row s k).
 Definition cur_obj (s : inner) (k : K) : option obj := match cur s k with Some (VObj o) => Some o | _ => None end.
-Definition set_stack (s : inner) (k : K) (l : list ver) : inner :=
-  mkInner (set k l (i_objs s)) (i_ups s) (i_clock s + 1).
-(* a new current version: pushed in the versioned bucket, replacing in the unversioned one *)
-Definition write (s : inner) (k : K) (v : ver) : inner :=
-  set_stack s k (if versioned k then v :: stack s k else [v]).
-(* in-place change of the current version *)
-Definition replace_top (s : inner) (k : K) (v : ver) : inner := set_stack s k (v :: tl (stack s k)).
+Definition is_null (r : row) : bool := match w_vid r with None => true | Some _ => false end.
+Definition vid_matches (vr : vref) (r : row) : bool :=
+  match vr, w_vid r with
+  | VRNull, None => true
+  | VRId n, Some m => n =? m
+  | _, _ => false
+  end.
+Definition row_by (s : inner) (k : K) (vr : vref) : option row := find (vid_matches vr) (stack s k).
+Definition null_row (s : inner) (k : K) : option row := find is_null (stack s k).
+(* the row a call without / with a version id addresses *)
+Definition target_row (s : inner) (k : K) (vr : vref) : option row :=
+  match vr with VRNone => cur_row s k | _ => row_by s k vr end.
+
+Definition set_stack (s : inner) (k : K) (l : list row) : inner :=
+  mkInner (set k l (i_objs s)) (i_ups s) (i_clock s + 1) (i_nextvid s) (i_vers s).
+Definition bump_vid (s : inner) : inner := mkInner (i_objs s) (i_ups s) (i_clock s) (i_nextvid s + 1) (i_vers s).
+Definition unlatest1 (r : row) : row := mkRow (w_vid r) (w_ver r) (w_created r) false.
+Definition unlatest (l : list row) : list row := map unlatest1 l.
+Definition set_ver (r : row) (v : ver) : row := mkRow (w_vid r) v (w_created r) (w_latest r).
+
+(* a new current version (sql PutObject / CompleteMultipartUpload):
+   Enabled: new row with a fresh id.  Otherwise the null version: overwritten in place keeping its
+   creation stamp ([inplace], PutObject) or removed and re-inserted (CompleteMultipartUpload). *)
+Definition write_new (s : inner) (k : K) (v : ver) (created : N) (inplace : bool) : inner :=
+  if is_enabled s (fst k) then
+    bump_vid (set_stack s k (mkRow (Some (i_nextvid s)) v created true :: unlatest (stack s k)))
+  else
+    match null_row s k with
+    | Some _ =>
+        if inplace then
+          set_stack s k (map (fun r => if is_null r then mkRow None v (w_created r) true else unlatest1 r) (stack s k))
+        else
+          set_stack s k (mkRow None v created true :: unlatest (filter (fun r => negb (is_null r)) (stack s k)))
+    | None => set_stack s k (mkRow None v created true :: unlatest (stack s k))
+    end.
+(* in-place change of one row *)
+Definition upd_rows (pr : row -> bool) (f : row -> row) (l : list row) : list row :=
+  map (fun r => if pr r then f r else r) l.
+Definition upd_target (s : inner) (k : K) (vr : vref) (f : row -> row) : inner :=
+  set_stack s k (upd_rows (match vr with VRNone => w_latest | _ => vid_matches vr end) f (stack s k)).
+(* FindLatestObjectByBucketNameAndKeyExcludingID: the remaining row with the newest creation stamp *)
+Fixpoint max_created (l : list row) : option N :=
+  match l with
+  | [] => None
+  | r :: l' => match max_created l' with
+               | Some c => Some (N.max c (w_created r))
+               | None => Some (w_created r)
+               end
+  end.
+Definition promote (l : list row) : list row :=
+  match max_created l with
+  | None => l
+  | Some c => map (fun r => if w_created r =? c then mkRow (w_vid r) (w_ver r) (w_created r) true else r) l
+  end.
 
 Inductive rres := RObj (o : obj) | RErr (e : err).
 Definition inner_lookup (s : inner) (k : K) : rres :=
@@ -117,6 +181,20 @@ Definition inner_get (s : inner) (k : K) (im inm : cond) : gres :=
   | RErr e => GErr e
   | RObj o => GObj o (body_of (o_parts o))
   end.
+(* reads that name a version id *)
+Definition inner_head_v (s : inner) (k : K) (vr : vref) (im inm : cond) : rres :=
+  match row_by s k vr with
+  | None => RErr NoSuchKey
+  | Some r => match w_ver r with
+              | VDM => RErr MethodNotAllowed
+              | VObj o => match validate o im inm with Some e => RErr e | None => RObj o end
+              end
+  end.
+Definition inner_get_v (s : inner) (k : K) (vr : vref) (im inm : cond) : gres :=
+  match inner_head_v s k vr im inm with
+  | RErr e => GErr e
+  | RObj o => GObj o (body_of (o_parts o))
+  end.
 
 Definition cond_holds (c : cond) (cu : option obj) : bool :=
   match c, cu with
@@ -125,15 +203,19 @@ Definition cond_holds (c : cond) (cu : option obj) : bool :=
   | CTag e, Some o => etag_eqb (o_etag o) e
   | _, None => false
   end.
+Definition row_obj (r : option row) : option obj := match r with Some r' => match w_ver r' with VObj o => Some o | VDM => None end | None => None end.
 
 Definition inner_put (s : inner) (k : K) (cid ct meta tags cls : N) (c : pcond) : inner * err :=
   let ex := cur_obj s k in
   let pass := match c with
               | PNone => true
-              | PIfNoneStar => match ex with None => true | Some _ => false end
+              | PIfNoneStar => match ex with
+                               | None => is_enabled s (fst k) || match null_row s k with None => true | Some _ => false end
+                               | Some _ => false
+                               end
               | PIfMatch c' => cond_holds c' ex
               end in
-  if pass then (write s k (VObj (mkObj [cid] ct meta tags cls (ES cid) (i_clock s))), Ok)
+  if pass then (write_new s k (VObj (mkObj [cid] ct meta tags cls (ES cid) (i_clock s))) (i_clock s) true, Ok)
   else (s, PreconditionFailed).
 
 Definition inner_append (s : inner) (k : K) (cid : N) (off : option N) : inner * err :=
@@ -144,13 +226,23 @@ Definition inner_append (s : inner) (k : K) (cid : N) (off : option N) : inner *
                 | Some n, Some o => n =? size_of o
                 end in
   if off_ok then
-    let o' := match ex with
-              | None => mkObj [cid] 0 0 0 0 (EM [cid]) (i_clock s)
-              | Some o => let ps := o_parts o ++ [cid] in
-                          if versioned k then mkObj ps (o_ct o) 0 0 0 (EM ps) (i_clock s)
-                          else mkObj ps (o_ct o) (o_meta o) (o_tags o) (o_cls o) (EM ps) (i_clock s)
-              end in
-    (write s k (VObj o'), Ok)
+    if is_enabled s (fst k) then
+      let o' := match ex with
+                | None => mkObj [cid] 0 0 0 0 (EM [cid]) (i_clock s)
+                | Some o => let ps := o_parts o ++ [cid] in mkObj ps (o_ct o) 0 0 0 (EM ps) (i_clock s)
+                end in
+      (write_new s k (VObj o') (i_clock s) true, Ok)
+    else
+      (* sql AppendObject: the latest row (even a delete marker) is updated in place *)
+      match cur_row s k with
+      | Some r =>
+          let o' := match w_ver r with
+                    | VObj o => let ps := o_parts o ++ [cid] in mkObj ps (o_ct o) (o_meta o) (o_tags o) (o_cls o) (EM ps) (i_clock s)
+                    | VDM => mkObj [cid] 0 0 0 0 (EM [cid]) (i_clock s)
+                    end in
+          (upd_target s k VRNone (fun x => set_ver x (VObj o')), Ok)
+      | None => (set_stack s k (mkRow None (VObj (mkObj [cid] 0 0 0 0 (EM [cid]) (i_clock s))) (i_clock s) true :: stack s k), Ok)
+      end
   else (s, InvalidWriteOffset).
 
 Definition inner_copy (s : inner) (src dst : K) (rm : bool) (ct meta : N) (rt : bool) (tags cls : N) : inner * err :=
@@ -159,59 +251,113 @@ Definition inner_copy (s : inner) (src dst : K) (rm : bool) (ct meta : N) (rt : 
   | RObj o =>
       let o' := mkObj (o_parts o) (if rm then ct else o_ct o) (if rm then meta else o_meta o)
                       (if rt then tags else o_tags o) cls (o_etag o) (i_clock s) in
-      (write s dst (VObj o'), Ok)
+      (write_new s dst (VObj o') (i_clock s) true, Ok)
   end.
 
-Definition inner_delete (s : inner) (k : K) (c : cond) : inner * err :=
-  if versioned k then
-    if cond_holds c (cur_obj s k) then (write s k VDM, Ok) else (s, PreconditionFailed)
-  else
-    match cur_obj s k with
-    | None => match c with CNone => (s, Ok) | _ => (s, PreconditionFailed) end
-    | Some o => if cond_holds c (Some o) then (set_stack s k [], Ok) else (s, PreconditionFailed)
-    end.
+(* sql DeleteObject (after the pre-checks of metadatapart): [cond] has been found to address an
+   existing target where one is required *)
+Definition remove_version (s : inner) (k : K) (vr : vref) (r : row) : inner :=
+  let rest := filter (fun x => negb (vid_matches vr x)) (stack s k) in
+  set_stack s k (if w_latest r then promote rest else rest).
+Definition push_marker (s : inner) (k : K) : inner :=
+  let rows := if is_suspended s (fst k) then filter (fun r => negb (is_null r)) (stack s k) else stack s k in
+  bump_vid (set_stack s k (mkRow (Some (i_nextvid s)) VDM (i_clock s) true :: unlatest rows)).
+
+Definition inner_delete (s : inner) (k : K) (c : cond) (vr : vref) : inner * err :=
+  match vr with
+  | VRNone =>
+      if is_unset s (fst k) then
+        match cur_row s k with
+        | None => match c with CNone => (s, Ok) | _ => (s, PreconditionFailed) end
+        | Some r => if cond_holds c (row_obj (Some r))
+                    then (set_stack s k (filter (fun x => negb (w_latest x)) (stack s k)), Ok)
+                    else (s, PreconditionFailed)
+        end
+      else
+        if cond_holds c (cur_obj s k) then (push_marker s k, Ok) else (s, PreconditionFailed)
+  | _ =>
+      match row_by s k vr with
+      | None => match c with CNone => (s, Ok) | _ => (s, PreconditionFailed) end
+      | Some r =>
+          let pass := match c with
+                      | CNone | CStar => true
+                      | CTag e => match w_ver r with VObj o => etag_eqb (o_etag o) e | VDM => false end
+                      end in
+          if pass then (remove_version s k vr r, Ok) else (s, PreconditionFailed)
+      end
+  end.
 
 (* one entry of DeleteObjects: true = Deleted, false = PreconditionFailed.  The bulk path compares
-   the ETag with the literal condition, so "*" never matches there. *)
-Definition inner_delete_entry (s : inner) (k : K) (c : cond) : inner * bool :=
-  let pass := match c with
-              | CNone => true
-              | CStar => false
-              | CTag e => match cur_obj s k with Some o => etag_eqb (o_etag o) e | None => false end
-              end in
-  if pass then
-    if versioned k then (write s k VDM, true)
-    else match cur s k with
-         | None => (s, true)
-         | Some _ => (set_stack s k [], true)
-         end
-  else (s, false).
-Fixpoint inner_delete_many (s : inner) (b : N) (es : list (N * cond)) : inner * list (N * bool) :=
+   the ETag of the looked-up row with the literal condition first, so "*" never matches there. *)
+Definition inner_delete_entry (s : inner) (k : K) (c : cond) (vr : vref) : inner * bool :=
+  let looked := match vr with
+                | VRNone => if is_suspended s (fst k) then null_row s k else cur_row s k
+                | _ => row_by s k vr
+                end in
+  match looked with
+  | None =>
+      match c with
+      | CNone => match vr with
+                 | VRNone => if is_unset s (fst k) then (s, true) else (push_marker s k, true)
+                 | _ => (s, true)
+                 end
+      | _ => (s, false)
+      end
+  | Some r =>
+      let pass := match c with
+                  | CNone => true
+                  | CStar => false
+                  | CTag e => match w_ver r with VObj o => etag_eqb (o_etag o) e | VDM => false end
+                  end in
+      if pass then
+        match inner_delete s k c vr with
+        | (s', Ok) => (s', true)
+        | (s', _) => (s', false)
+        end
+      else (s, false)
+  end.
+(* the caller fixed the version ids before the call: ordinals not yet handed out then match nothing,
+   even if an earlier entry of the same call creates a delete marker with that ordinal *)
+Definition freeze_vref (limit : N) (e : N * cond * vref) : N * cond * vref :=
+  match e with
+  | (k, c, VRId n) => if n <? limit then e else (k, c, VRBogus)
+  | _ => e
+  end.
+Fixpoint inner_delete_many (s : inner) (b : N) (es : list (N * cond * vref)) : inner * list (N * bool) :=
   match es with
   | [] => (s, [])
-  | (k, c) :: es' =>
-      let (s1, d) := inner_delete_entry s (b, k) c in
+  | (k, c, vr) :: es' =>
+      let (s1, d) := inner_delete_entry s (b, k) c vr in
       let (s2, r) := inner_delete_many s1 b es' in
       (s2, (k, d) :: r)
   end.
 
-Definition inner_tag (s : inner) (k : K) (tags : N) : inner * err :=
-  match inner_lookup s k with
-  | RErr e => (s, e)
-  | RObj o => (replace_top s k (VObj (mkObj (o_parts o) (o_ct o) (o_meta o) tags (o_cls o) (o_etag o) (i_clock s))), Ok)
+Definition set_tags (o : obj) (tags st : N) : obj := mkObj (o_parts o) (o_ct o) (o_meta o) tags (o_cls o) (o_etag o) st.
+Definition set_cls (o : obj) (cls st : N) : obj := mkObj (o_parts o) (o_ct o) (o_meta o) (o_tags o) cls (o_etag o) st.
+Definition inner_tag (s : inner) (k : K) (tags : N) (vr : vref) : inner * err :=
+  match target_row s k vr with
+  | None => (s, NoSuchKey)
+  | Some r =>
+      match w_ver r with
+      | VDM => (s, match vr with VRNone => DeleteMarker | _ => MethodNotAllowed end)
+      | VObj o => (upd_target s k vr (fun x => set_ver x (VObj (set_tags o tags (i_clock s)))), Ok)
+      end
   end.
 
 Definition class_ok (c : N) : bool := (1 <=? c) && (c <=? 3).
-Definition inner_trans (s : inner) (k : K) (cls : N) (c : cond) : inner * err :=
+Definition inner_trans (s : inner) (k : K) (cls : N) (c : cond) (vr : vref) : inner * err :=
   if class_ok cls then
-    match cur_obj s k with
+    match row_obj (target_row s k vr) with
     | None => (s, NoSuchKey)
     | Some o =>
         if cond_holds c (Some o) then
-          (replace_top s k (VObj (mkObj (o_parts o) (o_ct o) (o_meta o) (o_tags o) cls (o_etag o) (i_clock s))), Ok)
+          (upd_target s k vr (fun x => set_ver x (VObj (set_cls o cls (i_clock s)))), Ok)
         else (s, PreconditionFailed)
     end
   else (s, InvalidStorageClass).
+
+Definition inner_set_versioning (s : inner) (b : N) (v : vstate) : inner :=
+  mkInner (i_objs s) (i_ups s) (i_clock s) (i_nextvid s) ((b, v) :: i_vers s).
 
 (* multipart uploads, addressed by creation ordinal *)
 Fixpoint upd_nth {A} (n : nat) (f : A -> A) (l : list A) : list A :=
@@ -227,18 +373,18 @@ Fixpoint insert_part (p : N * N) (l : list (N * N)) : list (N * N) :=
                else if fst p =? fst q then p :: l'
                else q :: insert_part p l'
   end.
-Definition close_up (u : upload) : upload := mkUp (u_k u) (u_ct u) (u_meta u) (u_tags u) (u_cls u) (u_parts u) false.
-Definition set_ups (s : inner) (ups : list upload) : inner := mkInner (i_objs s) ups (i_clock s).
+Definition close_up (u : upload) : upload := mkUp (u_k u) (u_ct u) (u_meta u) (u_tags u) (u_cls u) (u_parts u) false (u_created u).
+Definition set_ups (s : inner) (ups : list upload) : inner := mkInner (i_objs s) ups (i_clock s + 1) (i_nextvid s) (i_vers s).
 
 Inductive mres := MDone (e : err) | MNoUpload.
 Definition inner_mcreate (s : inner) (k : K) (ct meta tags cls : N) : inner :=
-  set_ups s (i_ups s ++ [mkUp k ct meta tags cls [] true]).
+  set_ups s (i_ups s ++ [mkUp k ct meta tags cls [] true (i_clock s)]).
 Definition inner_mpart (s : inner) (u pn cid : N) : inner * mres :=
   match nth_error (i_ups s) (N.to_nat u) with
   | None => (s, MNoUpload)
   | Some up =>
       if u_open up then
-        (set_ups s (upd_nth (N.to_nat u) (fun x => mkUp (u_k x) (u_ct x) (u_meta x) (u_tags x) (u_cls x) (insert_part (pn, cid) (u_parts x)) true) (i_ups s)), MDone Ok)
+        (set_ups s (upd_nth (N.to_nat u) (fun x => mkUp (u_k x) (u_ct x) (u_meta x) (u_tags x) (u_cls x) (insert_part (pn, cid) (u_parts x)) true (u_created x)) (i_ups s)), MDone Ok)
       else (s, MDone NoSuchKey)
   end.
 (* part numbers must be exactly 1..n (UploadWithInvalidSequenceNumber otherwise; the upload stays open) *)
@@ -255,7 +401,7 @@ Definition inner_mcomplete (s : inner) (u : N) : inner * mres * option K :=
         if negb (seq_from 1 (u_parts up)) then (s, MDone InvalidSequence, Some (u_k up)) else
         let ps := map snd (u_parts up) in
         let s1 := set_ups s (upd_nth (N.to_nat u) close_up (i_ups s)) in
-        (write s1 (u_k up) (VObj (mkObj ps (u_ct up) (u_meta up) (u_tags up) (u_cls up) (EM ps) (i_clock s))), MDone Ok, Some (u_k up))
+        (write_new s1 (u_k up) (VObj (mkObj ps (u_ct up) (u_meta up) (u_tags up) (u_cls up) (EM ps) (i_clock s))) (u_created up) false, MDone Ok, Some (u_k up))
       else (s, MDone NoSuchKey, Some (u_k up))
   end.
 Definition inner_mabort (s : inner) (u : N) : inner * mres :=
@@ -279,17 +425,20 @@ Inductive op :=
 | OPut (k : K) (cid ct meta tags cls : N) (c : pcond)
 | OAppend (k : K) (cid : N) (off : option N)
 | OCopy (src dst : K) (rm : bool) (ct meta : N) (rt : bool) (tags cls : N)
-| ODelete (k : K) (c : cond)
-| ODeleteMany (b : N) (es : list (N * cond))
-| OTag (k : K) (tags : N)
-| OUntag (k : K)
-| OTrans (k : K) (cls : N) (c : cond)
+| ODelete (k : K) (c : cond) (vr : vref)
+| ODeleteMany (b : N) (es : list (N * cond * vref))
+| OTag (k : K) (tags : N) (vr : vref)
+| OUntag (k : K) (vr : vref)
+| OTrans (k : K) (cls : N) (c : cond) (vr : vref)
+| OVers (b : N) (v : vstate)
 | OMCreate (k : K) (ct meta tags cls : N)
 | OMPart (u pn cid : N)
 | OMComplete (u : N)
 | OMAbort (u : N)
 | OHead (k : K) (im inm : cond)
 | OGet (k : K) (im inm : cond)
+| OHeadV (k : K) (vr : vref) (im inm : cond)
+| OGetV (k : K) (vr : vref) (im inm : cond)
 | OGetOpen (k : K) (im inm : cond)
 | OGetFinish (h : N)
 | OGetAbort (h : N)
@@ -365,28 +514,33 @@ Definition step (s : st) (o : op) : st * res :=
         let (i, e) := inner_copy (s_in s) src dst rm ct meta rt tags cls in
         (invalidate s i dst, RStatus e)
       else (s, RStatus NoSuchBucket)
-  | ODelete k c =>
+  | ODelete k c vr =>
+      (* also with a version id: deleting the current version by id promotes another one *)
       if bucket_ok (fst k) then
-        let (i, e) := inner_delete (s_in s) k c in
+        let (i, e) := inner_delete (s_in s) k c vr in
         match e with Ok => (invalidate s i k, RStatus Ok) | _ => (with_inner s i, RStatus e) end
       else (s, RStatus NoSuchBucket)
   | ODeleteMany b es =>
       if bucket_ok b then
-        let (i, r) := inner_delete_many (s_in s) b es in
+        let (i, r) := inner_delete_many (s_in s) b (map (freeze_vref (i_nextvid (s_in s))) es) in
         (fold_left (fun (a : st) (kd : N * bool) => if snd kd then invalidate a (s_in a) (b, fst kd) else a) r (with_inner s i), RDel r)
       else (s, RStatus NoSuchBucket)
-  | OTag k tags =>
+  | OTag k tags vr =>
       if bucket_ok (fst k) then
-        let (i, e) := inner_tag (s_in s) k tags in (invalidate s i k, RStatus e)
+        let (i, e) := inner_tag (s_in s) k tags vr in (invalidate s i k, RStatus e)
       else (s, RStatus NoSuchBucket)
-  | OUntag k =>
+  | OUntag k vr =>
       if bucket_ok (fst k) then
-        let (i, e) := inner_tag (s_in s) k 0 in (invalidate s i k, RStatus e)
+        let (i, e) := inner_tag (s_in s) k 0 vr in (invalidate s i k, RStatus e)
       else (s, RStatus NoSuchBucket)
-  | OTrans k cls c =>
+  | OTrans k cls c vr =>
       (* TransitionObjectStorageClass (overridden since c25178c): forward, then invalidate even on error *)
       if bucket_ok (fst k) then
-        let (i, e) := inner_trans (s_in s) k cls c in (invalidate s i k, RStatus e)
+        let (i, e) := inner_trans (s_in s) k cls c vr in (invalidate s i k, RStatus e)
+      else (s, RStatus NoSuchBucket)
+  | OVers b v =>
+      (* PutBucketVersioningConfiguration: delegator only *)
+      if bucket_ok b then (with_inner s (inner_set_versioning (s_in s) b v), RStatus Ok)
       else (s, RStatus NoSuchBucket)
   | OMCreate k ct meta tags cls =>
       if bucket_ok (fst k) then (with_inner s (inner_mcreate (s_in s) k ct meta tags cls), RStatus Ok)
@@ -418,6 +572,15 @@ Definition step (s : st) (o : op) : st * res :=
           | (s', OpOk ob b fill) =>
               ((if fill then mkSt (s_in s') (s_head s') (set k b (s_body s')) (s_hs s') else s'), RGet ob b)
           end
+      else (s, RStatus NoSuchBucket)
+  | OHeadV k vr im inm =>
+      (* reads that name a version id bypass the cache *)
+      if bucket_ok (fst k) then
+        (s, match inner_head_v (s_in s) k vr im inm with RObj o => RHead o | RErr e => RStatus e end)
+      else (s, RStatus NoSuchBucket)
+  | OGetV k vr im inm =>
+      if bucket_ok (fst k) then
+        (s, match inner_get_v (s_in s) k vr im inm with GObj o b => RGet o b | GErr e => RStatus e end)
       else (s, RStatus NoSuchBucket)
   | OGetOpen k im inm =>
       if bucket_ok (fst k) then
@@ -472,10 +635,19 @@ Definition parse_pcond (t : bytes) : option pcond :=
   else option_map PIfMatch (parse_cond t).
 Definition parse_off (t : bytes) : option (option N) :=
   if bytes_eqb t B"N" then Some None else option_map Some (parse_N t).
-Definition parse_entry (t : bytes) : option (N * cond) :=
-  match split_first ":"%byte t with
-  | Some (a, b) => match parse_N a, parse_cond b with Some k, Some c => Some (k, c) | _, _ => None end
-  | None => None
+Definition parse_vref (t : bytes) : option vref :=
+  if bytes_eqb t B"N" then Some VRNone
+  else if bytes_eqb t B"n" then Some VRNull
+  else match t with
+       | "v"%byte :: r => option_map VRId (parse_N r)
+       | _ => None
+       end.
+(* "k:cond" or "k:cond:vref" *)
+Definition parse_entry (t : bytes) : option (N * cond * vref) :=
+  match split_on ":"%byte t with
+  | [a; b] => match parse_N a, parse_cond b with Some k, Some c => Some (k, c, VRNone) | _, _ => None end
+  | [a; b; v] => match parse_N a, parse_cond b, parse_vref v with Some k, Some c, Some vr => Some (k, c, vr) | _, _, _ => None end
+  | _ => None
   end.
 Definition pb (t : bytes) : option bool := parse_bool t.
 
@@ -511,8 +683,13 @@ Definition parse_op (t : bytes) : op :=
         match a with
         | [b; k; c] =>
             match mapM parse_N [b; k], parse_cond c with
-            | Some [b; k], Some c => ODelete (b, k) c
+            | Some [b; k], Some c => ODelete (b, k) c VRNone
             | _, _ => bad
+            end
+        | [b; k; c; v] =>
+            match mapM parse_N [b; k], parse_cond c, parse_vref v with
+            | Some [b; k], Some c, Some vr => ODelete (b, k) c vr
+            | _, _, _ => bad
             end
         | _ => bad
         end
@@ -526,15 +703,36 @@ Definition parse_op (t : bytes) : op :=
         | _ => bad
         end
       else if bytes_eqb tag B"T" then
-        match mapM parse_N a with Some [b; k; tg] => OTag (b, k) tg | _ => bad end
+        match a with
+        | [b; k; tg] => match mapM parse_N [b; k; tg] with Some [b; k; tg] => OTag (b, k) tg VRNone | _ => bad end
+        | [b; k; tg; v] => match mapM parse_N [b; k; tg], parse_vref v with Some [b; k; tg], Some vr => OTag (b, k) tg vr | _, _ => bad end
+        | _ => bad
+        end
       else if bytes_eqb tag B"U" then
-        match mapM parse_N a with Some [b; k] => OUntag (b, k) | _ => bad end
+        match a with
+        | [b; k] => match mapM parse_N [b; k] with Some [b; k] => OUntag (b, k) VRNone | _ => bad end
+        | [b; k; v] => match mapM parse_N [b; k], parse_vref v with Some [b; k], Some vr => OUntag (b, k) vr | _, _ => bad end
+        | _ => bad
+        end
+      else if bytes_eqb tag B"V" then
+        match a with
+        | [b; v] => match parse_N b with
+                    | Some b => if bytes_eqb v B"E" then OVers b VEnabled else if bytes_eqb v B"S" then OVers b VSuspended else bad
+                    | None => bad
+                    end
+        | _ => bad
+        end
       else if bytes_eqb tag B"R" then
         match a with
         | [b; k; cl; c] =>
             match mapM parse_N [b; k; cl], parse_cond c with
-            | Some [b; k; cl], Some c => OTrans (b, k) cl c
+            | Some [b; k; cl], Some c => OTrans (b, k) cl c VRNone
             | _, _ => bad
+            end
+        | [b; k; cl; c; v] =>
+            match mapM parse_N [b; k; cl], parse_cond c, parse_vref v with
+            | Some [b; k; cl], Some c, Some vr => OTrans (b, k) cl c vr
+            | _, _, _ => bad
             end
         | _ => bad
         end
@@ -556,6 +754,18 @@ Definition parse_op (t : bytes) : op :=
                 else OGetOpen (b, k) im inm
             | _, _, _ => bad
             end
+        | [b; k; im; inm; v] =>
+            (* reads with a version id (H and G only) *)
+            match mapM parse_N [b; k], parse_cond im, parse_cond inm, parse_vref v with
+            | Some [b; k], Some im, Some inm, Some vr =>
+                match vr with
+                | VRNone => if bytes_eqb tag B"H" then OHead (b, k) im inm
+                            else if bytes_eqb tag B"G" then OGet (b, k) im inm else OGetOpen (b, k) im inm
+                | _ => if bytes_eqb tag B"H" then OHeadV (b, k) vr im inm
+                       else if bytes_eqb tag B"G" then OGetV (b, k) vr im inm else bad
+                end
+            | _, _, _, _ => bad
+            end
         | _ => bad
         end
       else if bytes_eqb tag B"GF" then
@@ -572,6 +782,7 @@ Definition show_err (e : err) : bytes :=
   | PreconditionFailed => B"PreconditionFailed" | NotModified => B"NotModified" | InvalidRange => B"InvalidRange"
   | InvalidWriteOffset => B"InvalidWriteOffset" | InvalidStorageClass => B"InvalidStorageClass"
   | InvalidSequence => B"Err(UploadWithInvalidSequenceNumber)"
+  | MethodNotAllowed => B"MethodNotAllowed"
   end.
 Definition show_body (b : list N) : bytes :=
   match b with [] => B"-" | _ => join B"." (map show_N b) end.
